@@ -619,26 +619,17 @@ Proof.
       apply Nat.eqb_eq in Hc. subst. reflexivity.
 Qed.
 
-Lemma in_table_In tbl e c : Opc.in_table tbl e c = true <-> In (e, c) tbl.
-Proof.
-  unfold Opc.in_table. rewrite existsb_exists. split.
-  - intros ([a b] & Hin & H). simpl in H. apply andb_true_iff in H as [H1 H2].
-    apply str_eqb_eq in H1, H2. subst. exact Hin.
-  - intros H. exists (e, c). split; auto. simpl. rewrite !str_eqb_refl. reflexivity.
-Qed.
-
 Theorem tables_okb_sound T : tables_okb T = true -> tables_ok T.
 Proof.
   unfold tables_okb. intros H.
-  apply andb_true_iff in H as [H H4]. apply andb_true_iff in H as [H H3]. apply andb_true_iff in H as [H1 H2].
+  apply andb_true_iff in H as [H H4]. apply andb_true_iff in H as [H1 H2].
   constructor.
   - split; cbn.
     + apply Opc_proofs.nodupb_NoDup. exact H1.
     + intros kv Hkv. rewrite forallb_forall in H2. apply str_eqb_eq. auto.
-  - intros e c1 c2 Ha Hb Hne. apply in_table_In in Ha, Hb.
-    rewrite forallb_forall in H3. specialize (H3 _ Ha). rewrite forallb_forall in H3. specialize (H3 _ Hb).
-    cbn [fst snd] in H3. rewrite str_eqb_refl in H3. simpl in H3.
-    apply orb_true_iff in H3 as [H3|H3]; apply str_eqb_eq in H3; [contradiction|exact H3].
+  - intros e c1 c2 Ha Hb Hne. exfalso. apply Hne. unfold Opc.in_table in Ha, Hb.
+    destruct (Opc.ext_types (t_def T) e) as [|t [|t' l]]; try discriminate.
+    apply str_eqb_eq in Ha, Hb. congruence.
   - intros c Hc. rewrite forallb_forall in H4. specialize (H4 c Hc). apply negb_true_iff in H4. exact H4.
 Qed.
 
@@ -4139,8 +4130,7 @@ Qed.
 Lemma saved_only_save T s o s1 ph : step false T s o = (s1, Saved ph) -> o = Save.
 Proof.
   destruct o; cbn [step]; auto; intros H; exfalso; revert H; apply fin_not_saved; intros a ph';
-    try (destruct a; discriminate); try discriminate.
-  destruct a as [[v|]|]; discriminate.
+    try (destruct a; discriminate); try discriminate; try (destruct a as [[v|]|]; discriminate).
 Qed.
 
 (** every package any save of any history writes is Closed *)
@@ -4153,4 +4143,95 @@ Proof.
   destruct Hin as [Hin|Hin]; [|eapply IH; eauto].
   injection Hin as -> ->. pose proof (saved_only_save T s o s1 ph E) as ->.
   cbn [step save_state negb] in E. injection E as <- <-. apply save_closed_aux; auto.
+Qed.
+
+(* ------------------------------------------------------------------------------ *)
+(** * Re-opening the saved package gives back the graph *)
+
+Section Reopen.
+Variable T : tables.
+Variable s : state.
+Hypothesis HI : Inv T s.
+Hypothesis HT : tables_ok T.
+
+Let Hw : wfg s := inv_wfg T s HI.
+
+Lemma reload_out src base rs r :
+  (src = Opc.root \/ Opc.part_name src) -> base = baseURI src ->
+  (forall r', In r' rs -> rr_ref r' = None) ->
+  (forall q, In q (int_targets rs) -> In q (iter_pids s)) ->
+  In r rs -> reload_rel (save_phys T s) src (out_rel (st_parts s) base r) = mem_graph r.
+Proof.
+  intros Hsrc -> Hnc Hcl Hr. unfold reload_rel, out_rel, mem_graph.
+  destruct (rr_tgt r) as [q|u] eqn:Et; cbn [Opc.r_mode Opc.r_target Opc.r_id Opc.r_type]; auto.
+  rewrite (Hnc r Hr).
+  assert (Hq : In q (iter_pids s)) by (apply Hcl; apply int_targets_In; eauto).
+  rewrite from_rel_ref_roundtrip; auto; [|apply (iter_part_name T s HI); auto].
+  rewrite (find_member_iter T s HI q Hq). rewrite memf_pid. reflexivity.
+Qed.
+
+Theorem reopen_graph :
+  map pm_pid (ph_members (save_phys T s)) = iter_pids s /\ NoDup (iter_pids s) /\
+  map (reload_rel (save_phys T s) Opc.root) (ph_prels (save_phys T s))
+    = map mem_graph (Opc.sort_by (fun a b => Opc.rid_leb (rr_id a) (rr_id b)) (st_prels s)) /\
+  forall m, In m (ph_members (save_phys T s)) ->
+    exists x, getp s (pm_pid m) = Some x /\ pm_name m = pt_name x /\
+      ct_resolve (ph_cts (save_phys T s)) (pm_name m) = Ok (pt_ct x) /\
+      map (reload_rel (save_phys T s) (pm_name m)) (pm_rels m)
+        = map mem_graph (Opc.sort_by (fun a b => Opc.rid_leb (rr_id a) (rr_id b)) (pt_rels x)).
+Proof.
+  destruct (iter_pids_spec s Hw) as (Hiff & Hnd & Hlt).
+  assert (Hmap : forall src base rs, (src = Opc.root \/ Opc.part_name src) -> base = baseURI src ->
+            (forall r', In r' rs -> rr_ref r' = None) -> (forall q, In q (int_targets rs) -> In q (iter_pids s)) ->
+            map (reload_rel (save_phys T s) src) (out_rels (st_parts s) base rs)
+            = map mem_graph (Opc.sort_by (fun a b => Opc.rid_leb (rr_id a) (rr_id b)) rs)).
+  { intros src base rs H1 H2 H3 H4. unfold out_rels. rewrite map_map. apply map_ext_in. intros r Hr.
+    apply (Permutation_in r (Opc_proofs.sort_by_perm _ rs)) in Hr. apply (reload_out src base rs r); auto. }
+  split; [|split; [exact Hnd|split]].
+  - rewrite save_members by exact Hw. rewrite map_map. rewrite <- (map_id (iter_pids s)) at 2.
+    apply map_ext. intros p. apply memf_pid.
+  - unfold save_phys at 2. cbn [ph_prels]. apply Hmap; auto.
+    + apply (iv_pnocache T s HI).
+    + apply (iter_roots T s HI).
+  - intros m Hm. rewrite save_members in Hm by exact Hw. apply in_map_iff in Hm as (p & <- & Hp).
+    destruct (iter_good T s HI p Hp) as (x & Hx & G). rewrite memf_pid. exists x. split; auto.
+    split; [rewrite memf_name; apply name_of_getp; exact Hx|]. split.
+    + pose proof (closed_types T s HI HT) as Hc. unfold c_types in Hc. apply andb_true_iff in Hc as [_ Hc].
+      rewrite forallb_forall in Hc. rewrite save_members in Hc by exact Hw.
+      specialize (Hc (memf s p) (in_map _ _ _ Hp)). rewrite memf_pid, Hx in Hc.
+      destruct (ct_resolve (ph_cts (save_phys T s)) (pm_name (memf s p))) as [ct|]; [|discriminate].
+      apply str_eqb_eq in Hc. subst. reflexivity.
+    + unfold memf. rewrite Hx. cbn [pm_name pm_rels]. apply Hmap.
+      * right. apply (gp_name _ _ G).
+      * apply (gp_base _ _ G).
+      * apply (gp_nocache _ _ G).
+      * intros q Hq. eapply (iter_closed T s HI); eauto.
+Qed.
+End Reopen.
+
+(* ------------------------------------------------------------------------------ *)
+(** * Refused calls *)
+
+(** a call refused for an index out of range, a layout in use or an image format Image.ext
+    refuses has had no effect beyond the first evaluation of prs.slides *)
+Lemma refused_slide_index s i : st_slides s = true -> snd (m_slide i s) = Err IndexErr -> fst (m_slide i s) = s.
+Proof. intros Hs _. apply slide_pure. exact Hs. Qed.
+
+Theorem refused_picture_bad T s i : st_slides s = true -> fst (step false T s (AddPictureBad i)) = s.
+Proof.
+  intros Hs. cbn [step]. rewrite fst_fin. unfold m_add_picture_bad, bindM.
+  pose proof (slide_pure s i Hs) as E. destruct (m_slide i s) as [s1 [a|e]]; cbn in *; auto.
+Qed.
+
+Theorem refused_layout_index T s l : snd (m_layout l s) = Err IndexErr -> fst (step false T s (RemoveLayout l)) = s.
+Proof.
+  intros H. cbn [step]. rewrite fst_fin. unfold m_remove_layout, bindM.
+  pose proof (layout_pure s l) as E. destruct (m_layout l s) as [s1 [a|e]]; cbn in *; [discriminate|auto].
+Qed.
+
+Theorem refused_add_slide_index T s l : st_slides s = true -> snd (m_layout l s) = Err IndexErr ->
+  fst (step false T s (AddSlide l)) = s.
+Proof.
+  intros Hs H. cbn [step]. rewrite fst_fin. unfold m_add_slide, bindM, m_access_slides. rewrite Hs.
+  pose proof (layout_pure s l) as E. destruct (m_layout l s) as [s1 [a|e]]; cbn in *; [discriminate|auto].
 Qed.
